@@ -39,7 +39,7 @@ def paths_of(f: tuple):
         return (f[1],)
     if k in ("ub",):
         return (f[1], f[2])
-    if k in ("lb",):
+    if k in ("lb", "eqc"):
         return (f[1],)
     if k in ("inv", "eqlen", "haskey", "member", "snap", "alias", "islen"):
         return (f[1], f[2])
